@@ -84,12 +84,13 @@ type history struct {
 	gen    []ref.RChange
 	events []histEvent
 	truth  map[int64]ssnap
-	base   int64   // lowest retained height
-	stored []int64 // heights at which a full set was written because the set changed (ascending)
-	family string  // "" = history stage; "initchain" = chains whose first set comes from InitChain (other keys, other stream)
+	base   int64          // lowest retained height
+	stored []int64        // heights at which a full set was written because the set changed (ascending)
+	boot   map[int64]bool // statesync family: the heights whose sets were written by Bootstrap
+	family string         // "" = history stage; "initchain" = chains whose first set comes from InitChain (other keys, other stream)
 	extra  map[string]interface{}
 	stats  struct {
-		heights, changes, rejected, prunes, lookups, reconstructed, maxK, crossings, s15, s15prop, rounds int64
+		heights, changes, rejected, prunes, lookups, reconstructed, maxK, crossings, s15, s15prop, rounds, bootProp int64
 	}
 }
 
@@ -112,14 +113,53 @@ func (h *history) witness(extra map[string]interface{}) map[string]interface{} {
 // key maps a finding key of the history stage to the one of the family the chain
 // belongs to.  The S15 class keeps its key everywhere: it is one defect.
 func (h *history) key(k string) string {
-	if h.family != "initchain" || k == "loadvalidators-replays-rounds-in-one-call" {
+	if h.family == "" || k == "loadvalidators-replays-rounds-in-one-call" {
 		return k
 	}
-	if k == "loadvalidators-fails-for-retained-height" || k == "loadvalidators-panics" {
-		return "initchain-loadvalidators-fails"
+	prefix := "initchain-loadvalidators"
+	if h.family == "statesync" {
+		prefix = "statesync-bootstrap-loadvalidators"
 	}
-	return "initchain-loadvalidators-differs-from-in-force"
+	if k == "loadvalidators-fails-for-retained-height" || k == "loadvalidators-panics" {
+		return prefix + "-fails"
+	}
+	return prefix + "-differs-from-in-force"
 }
+
+// onlyProposerDiffers: same members, powers and priorities, another proposer.
+func onlyProposerDiffers(got, want ssnap) bool {
+	if diffMembers(got, want) != "" || bytes.Equal(got.Proposer, want.Proposer) {
+		return false
+	}
+	for i := range got.Vals {
+		if got.Vals[i].Prio != want.Vals[i].Prio {
+			return false
+		}
+	}
+	return true
+}
+
+// proposerIsLowestPriority: the set's proposer is a member holding the lowest priority
+// (what types.ValidatorSetFromExistingValidators picks).  Used only to classify.
+func proposerIsLowestPriority(s ssnap) bool {
+	if len(s.Vals) == 0 {
+		return false
+	}
+	min := s.Vals[0].Prio
+	for _, v := range s.Vals {
+		if v.Prio < min {
+			min = v.Prio
+		}
+	}
+	for _, v := range s.Vals {
+		if bytes.Equal(v.Addr, s.Proposer) {
+			return v.Prio == min
+		}
+	}
+	return false
+}
+
+const keyBootProposer = "statesync-bootstrap-proposer-is-lowest-priority-member"
 
 // rotKey is the key for "the set / the proposer of a round is not what the
 // reference rotation prescribes" in the family the chain belongs to.
@@ -214,6 +254,12 @@ func (h *history) lookup(q int64, phase string) bool {
 		h.c.Violation(h.key("loadvalidators-wrong-members"), fmt.Sprintf("LoadValidators(%d) (%s) is not the set that was in force: %s", q, phase, d),
 			h.witness(map[string]interface{}{"query_height": q, "phase": phase, "base": h.base, "expected": jsnap(want), "got": jsnap(g)}))
 		return false
+	}
+	if h.family == "statesync" && h.boot[q] && onlyProposerDiffers(g, want) && proposerIsLowestPriority(g) {
+		h.stats.bootProp++
+		h.c.Violation(keyBootProposer, fmt.Sprintf("LoadValidators(%d) (%s) of a state-synced node: members, powers and priorities are those in force, the proposer is %X instead of %X", q, phase, g.Proposer, want.Proposer),
+			h.witness(map[string]interface{}{"query_height": q, "phase": phase, "expected": jsnap(want), "got": jsnap(g)}))
+		return true // a known class: go on looking
 	}
 	if d := diffPriorities(g, want); d != "" {
 		key := "loadvalidators-priorities-or-proposer-differ"
